@@ -401,7 +401,7 @@ def main():
             res["tb"] = traceback.format_exc()[-600:]
         res["log"] = list(logmod.LOG)
         res["rec"] = [list(r) for r in rec]
-        res["in_eval"] = _api._eval_ctx is not None
+        res["in_eval"] = getattr(_api, "_eval_ctx", None) is not None
         out.append(res)
     if gate:
         import fsgate
